@@ -4,6 +4,7 @@ import (
 	"bytes"
 	"encoding/hex"
 	"fmt"
+	"math"
 
 	nfsv4 "github.com/buildbarn/go-xdr/pkg/protocols/nfsv4"
 )
@@ -264,6 +265,7 @@ func (m *model) startTxn(oo *mOO, seq uint32, policy int) (*mLast, nfsv4.Nfsstat
 func (m *model) completeTxn(oo *mOO, seq uint32, last *mLast) {
 	oo.txn = false
 	if seqidAdvances(last.status) {
+		m.markSeq("open_owner", oo.lastSeq, seq)
 		oo.lastSeq = seq
 		oo.lastResp = last
 	}
@@ -274,10 +276,24 @@ func (m *model) completeTxn(oo *mOO, seq uint32, last *mLast) {
 	m.releaseConf(oo.conf)
 }
 
+// markSeq labels the interesting points of an owner's seqid sequence.
+func (m *model) markSeq(who string, last, seq uint32) {
+	if last == math.MaxUint32 && seq == 1 {
+		m.mark(who + "_seqid_wrapped_skipping_zero")
+	}
+	if seq == 0 {
+		m.mark(who + "_seqid_zero_accepted_as_first")
+	}
+}
+
 // capture stores the XDR of the main result in the replay cache entry.
 func capture(f *inflight, last *mLast) check {
 	return check{"C19", func(res *nfsv4.Compound4res) error {
 		last.bytes = encode(mainRes(f, res))
+		last.next = nil
+		if f.op.Kind == kOpen && len(res.Resarray) > len(f.pre)+1 {
+			last.next = encode(res.Resarray[len(f.pre)+1])
+		}
 		return nil
 	}}
 }
@@ -416,7 +432,15 @@ func (m *model) runOpen(f *inflight) outcome {
 				switch op.How {
 				case "guarded", "guarded_size3", "exclusive":
 					return m.finishOpenErr(f, nfsv4.NFS4ERR_EXIST, "guarded create of an existing file")
-				case "unchecked_trunc":
+				}
+				if op.Fault == faultOpenSelf {
+					// The file refuses to be reopened: nothing was
+					// opened, nothing may be closed or upgraded.
+					m.mark("fault_fired_openself_reclaim")
+					m.sweep()
+					return m.finishOpenErr(f, faultNfsStatus(op.FaultSt), "injected fault: VirtualOpenSelf of the reclaimed file failed")
+				}
+				if op.How == "unchecked_trunc" {
 					f.fh.leaf.data = nil
 				}
 				f.leaf, f.reclaim = f.fh.leaf, true
@@ -445,6 +469,15 @@ func (m *model) runOpen(f *inflight) outcome {
 				return outcome{blocked: parkOpenBefore}
 			}
 		case "dir":
+			viaWrapper := f.fh.kind == "root"
+			if viaWrapper && op.Fault == faultDirBefore {
+				// The directory fails before doing anything (and
+				// before the second park point).
+				m.mark("fault_fired_dir_before")
+				f.dirSt = faultNfsStatus(op.FaultSt)
+				f.phase = "merge"
+				continue
+			}
 			leaf := m.names[op.Name]
 			f.dirSt = ok
 			switch {
@@ -453,12 +486,22 @@ func (m *model) runOpen(f *inflight) outcome {
 				case "guarded", "guarded_size3", "exclusive":
 					f.dirSt = nfsv4.NFS4ERR_EXIST
 				default:
-					if op.How == "unchecked_trunc" {
+					if op.Fault == faultOpenSelf {
+						// The existing file refuses to be opened.
+						m.mark("fault_fired_openself_open")
+						f.dirSt = faultNfsStatus(op.FaultSt)
+					} else if op.How == "unchecked_trunc" {
 						leaf.data = nil
 					}
 				}
 			case op.How == "nocreate":
 				f.dirSt = nfsv4.NFS4ERR_NOENT
+			case viaWrapper && op.Fault == faultAlloc:
+				// The file allocator fails: the directory logs the
+				// error, reports an I/O error and stays unchanged.
+				m.mark("fault_fired_alloc")
+				m.loggedErrors++
+				f.dirSt = nfsv4.NFS4ERR_IO
 			default:
 				leaf = &mLeaf{idx: len(m.leaves), name: op.Name, locks: map[string]*[nUnits]int8{}}
 				if op.How == "unchecked_size3" || op.How == "guarded_size3" {
@@ -488,6 +531,22 @@ func (m *model) runOpen(f *inflight) outcome {
 			if f.dirSt != ok {
 				return m.finishOpenErr(f, f.dirSt, "directory refused")
 			}
+			if f.fh.kind == "root" && op.Fault == faultDirAfter {
+				// The directory opened (maybe created) the file, then
+				// gave up and closed it again: the OPEN fails and must
+				// leave no open behind; a created file stays.
+				m.mark("fault_fired_dir_after")
+				if f.created {
+					m.mark("fault_dir_after_file_stays_created")
+				}
+				if f.bits&accRead != 0 {
+					f.leaf.pendingOpen[bitRead]--
+				}
+				if f.bits&accWrite != 0 {
+					f.leaf.pendingOpen[bitWrite]--
+				}
+				return m.finishOpenErr(f, faultNfsStatus(op.FaultSt), "injected fault: the directory failed after opening the file")
+			}
 			return m.finishOpenOK(f)
 		default:
 			panic("harness: bad OPEN phase " + f.phase)
@@ -497,6 +556,7 @@ func (m *model) runOpen(f *inflight) outcome {
 
 func (m *model) finishOpenErr(f *inflight, st nfsv4.Nfsstat4, why string) outcome {
 	last := &mLast{kind: kOpen, status: st, step: f.op.N}
+	m.mark("open_failed_inside_transaction")
 	m.completeTxn(f.oo, f.op.Seq, last)
 	o := f.fin(st, why)
 	o.checks = append(o.checks, capture(f, last))
@@ -872,6 +932,9 @@ func (m *model) setLock(l *mLeaf, key string, from, to int, typ int8) {
 		t = &[nUnits]int8{}
 		l.locks[key] = t
 	}
+	if typ != 0 {
+		l.everLocked = true
+	}
 	before := runsOf(t)
 	for u := from; u < to; u++ {
 		t[u] = typ
@@ -1019,6 +1082,7 @@ func (m *model) runLockNew(f *inflight) outcome {
 		m.mark("lock_granted")
 	}
 	if seqidAdvances(st) {
+		m.markSeq("lock_owner", lo.lastSeq, op.LockSeq)
 		lo.lastSeq = op.LockSeq
 		lo.lastResp = loLast
 	}
@@ -1046,8 +1110,8 @@ func (m *model) runLockNew(f *inflight) outcome {
 		}
 		return nil
 	}}, lockReplyChecks(f, nil, denied), capture(f, loLast))
-	if st == nfsv4.NFS4ERR_DENIED || st == ok {
-		o.class = "C20"
+	if st == nfsv4.NFS4ERR_DENIED || st == ok || st == nfsv4.NFS4ERR_INVAL {
+		o.class = "C20" // INVAL here: bad range or lock type
 	}
 	return o
 }
@@ -1085,6 +1149,7 @@ func (m *model) runLockOwnerOp(f *inflight) outcome {
 	finish := func(st nfsv4.Nfsstat4, why string, extra ...check) outcome {
 		last.status = st
 		if seqidAdvances(st) {
+			m.markSeq("lock_owner", lo.lastSeq, op.LockSeq)
 			lo.lastSeq = op.LockSeq
 			lo.lastResp = last
 		}
@@ -1101,7 +1166,9 @@ func (m *model) runLockOwnerOp(f *inflight) outcome {
 	if op.Kind == kLocku {
 		from, to, st := lockRange(op.Offset, op.Length)
 		if st != ok {
-			return finish(st, "invalid lock range")
+			o := finish(st, "invalid lock range")
+			o.class = "C20"
+			return o
 		}
 		key := lockKey(conf, lo.key)
 		if m.ownerHolds(lf.of.leaf, key) {
@@ -1130,7 +1197,7 @@ func (m *model) runLockOwnerOp(f *inflight) outcome {
 		m.mark("lock_granted")
 	}
 	o := finish(st, why, lockReplyChecks(f, want, denied))
-	if st == nfsv4.NFS4ERR_DENIED || st == ok {
+	if st == nfsv4.NFS4ERR_DENIED || st == ok || st == nfsv4.NFS4ERR_INVAL {
 		o.class = "C20"
 	}
 	return o
@@ -1162,11 +1229,15 @@ func (m *model) runLockt(f *inflight) outcome {
 	m.releaseConf(conf)
 	from, to, st := lockRange(op.Offset, op.Length)
 	if st != ok {
-		return f.fin(st, "invalid lock range")
+		o := f.fin(st, "invalid lock range")
+		o.class = "C20"
+		return o
 	}
 	typ, st := lockTypeOf(op.LockType)
 	if st != ok {
-		return f.fin(st, "invalid lock type")
+		o := f.fin(st, "invalid lock type")
+		o.class = "C20"
+		return o
 	}
 	l := f.fh.leaf
 	self := "<none>"
@@ -1264,6 +1335,13 @@ func (m *model) runIO(f *inflight) outcome {
 					return o
 				}
 				f.leaf = f.fh.leaf
+				if op.Kind != kSetattr && op.Fault == faultOpenSelf {
+					// The temporary open for the anonymous I/O fails.
+					m.mark("fault_fired_openself_io")
+					o := f.fin(faultNfsStatus(op.FaultSt), "injected fault: VirtualOpenSelf for I/O with a special state ID failed")
+					o.pure = true
+					return o
+				}
 				if op.Kind != kSetattr && m.deadLeaf(f, f.leaf) {
 					// Unlinked and no longer opened by anyone: only the
 					// not yet finalized CLOSE keeps the handle resolvable.
@@ -1314,6 +1392,22 @@ func (m *model) runIO(f *inflight) outcome {
 		case "io":
 			l := f.leaf
 			var chk check
+			if op.Fault == faultIO {
+				// The leaf fails the operation; the share the request
+				// held (clone or temporary open) must still be released.
+				m.mark("fault_fired_io")
+				if f.special {
+					if op.Kind != kSetattr {
+						l.anon[bit]--
+					}
+				} else {
+					m.sweep()
+					m.dropShare(f.of, &f.cloned, 0)
+					m.releaseConf(f.conf)
+					m.gcOFs()
+				}
+				return f.fin(faultNfsStatus(op.FaultSt), "injected fault: the file failed the I/O")
+			}
 			if f.special && op.Kind == kSetattr {
 				if m.deadLeaf(f, l) {
 					m.mark("setattr_on_file_that_died_while_parked")
